@@ -391,7 +391,7 @@ class Truncations(Driver):
             for form in forms_for(L):
                 yield dict(len=L, form=form, lo=1, hi=None)
         for L in self.big:
-            for form in (forms_for(L)[0], "pushdata4"):
+            for form in sorted(set((forms_for(L)[0], "pushdata4"))):
                 total = len(R.push_form(form, b"\x00")) - 1 + L
                 for lo in range(1, total, self.CHUNK):
                     yield dict(len=L, form=form, lo=lo, hi=min(total, lo + self.CHUNK))
